@@ -49,16 +49,42 @@ THEOREMS = [
     ("C01_tables_found", """
   forall p : bytes, blen p < 4294967296 ->
   is_ok (moov_check p) = match co_regions p with Some _ => true | None => false end"""),
+    ("C01_toplevel", """forall (cfg : config) (lenient : bool) (inp : input) (fuel : nat) (o : out) (md : bytes) (pad : N),
+  ilen inp <= U64MAX -> (forall t, cumulative_mdat_box_size cfg = Some t -> t <= U32MAX) ->
+  mp4_sanitize cfg lenient U64MAX' inp fuel = Ok o -> o_metadata o = Some (md, pad) ->
+  exists bs m fp mp' psz ts,
+    tiling (cumulative_mdat_box_size cfg) inp = Some bs /\\ last_moov bs = Some m /\\
+    metadata_shape (md_input md pad) = Some (fp, mp', psz) /\\
+    co_tables (tb_payload inp m) = Some ts /\\
+    let delta := (Z.of_N (blen md + pad) - Z.of_N (s_off (o_data o)))%Z in
+    co_regions mp' = co_regions (tb_payload inp m) /\\
+    co_tables mp' = Some (map (fun t : N * list N => (fst t, map (fun e => Z.to_N (Z.of_N e + delta)) (snd t))) ts) /\\
+    (forall t e, In t ts -> In e (snd t) -> (0 <= Z.of_N e + delta < 2 ^ (8 * Z.of_N (fst t)))%Z) /\\
+    (psz <> 0 -> delta = 0%Z)"""),
+    ("C01_pad_means_zero_shift", """forall (cfg : config) (lenient : bool) (inp : input) (fuel : nat) (o : out) (md : bytes) (pad : N)
+         (fp mp : bytes) (psz : N),
+  ilen inp <= U64MAX -> (forall t, cumulative_mdat_box_size cfg = Some t -> t <= U32MAX) ->
+  mp4_sanitize cfg lenient U64MAX' inp fuel = Ok o -> o_metadata o = Some (md, pad) ->
+  metadata_shape (md_input md pad) = Some (fp, mp, psz) -> psz <> 0 ->
+  blen md + pad = s_off (o_data o)"""),
+    ("C01_overflow_rejected_toplevel", """forall (cfg : config) (lenient : bool) (inp : input) (fuel : nat) (bs : list tbox),
+  max_metadata_size cfg < 4294967296 -> ilen inp <= U64MAX ->
+  (forall t, cumulative_mdat_box_size cfg = Some t -> t <= U32MAX) ->
+  tiling (cumulative_mdat_box_size cfg) inp = Some bs ->
+  (plan_of inp bs = Some Refuse \\/
+   exists d m ts t e, plan_of inp bs = Some (Shift d) /\\ last_moov bs = Some m /\\
+     co_tables (tb_payload inp m) = Some ts /\\ In t ts /\\ In e (snd t) /\\ shift (fst t) d e = None) ->
+  is_ok (mp4_sanitize cfg lenient U64MAX' inp fuel) = false"""),
 ]
 TRUSTED = fam.TRUSTED_COMMON + [
     "Base/AddSignedProofs.v (C20): the regenerated kernel checked_add_signed equals exact integer addition with range check",
     "Mp4/ShiftSpec.v: shift_all / shifted_by, the specification-side reading of `every entry becomes e + delta exactly`",
 ]
 ASSUMPTIONS = fam.ASSUMPTIONS_COMMON + [
-    "the theorems are stated for ONE moov payload p and the displacement d the sanitizer passes to the entry rewrite; that d is "
-    "metadata_len - data.offset, lies in (-2^31, 2^31), is 0 when a padding box is emitted, and that the returned moov payload is put_nodes kids' "
-    "is the top-level assembly over Mp4/San.v finish (separate proof files); until it is in place the whole-input statement of C01 is decided by the "
-    "correspondence batch + extracted specification oracle only",
+    "payload-level theorems are stated for ONE moov payload p and a displacement d in [-2^31, 2^31); the top-level theorems (C01_toplevel, "
+    "C01_pad_means_zero_shift, C01_overflow_rejected_toplevel; Mp4/LoopProofsRewrite.v) supply that d = |metadata| - media offset, that it is 0 when a "
+    "padding box is emitted, and that the returned moov payload is the rewritten one; they assume input length <= u64::MAX, the in-memory cursor "
+    "(max_seek = 2^64-1), cumulative_mdat_box_size: u32; C01_overflow_rejected_toplevel additionally max_metadata_size < 2^32 (via C05)",
     "C01_tables_found needs |p| < 2^32 (the code's u32 arithmetic refuses tables of 4 GiB or more that the specification would admit)",
 ]
 RULE = ("seed layouts (unit-test shapes and neighbours) x {cursor, strict}; gap lattice: gap = media offset - metadata length in {-20,-5,-1,0,1..9,16,100} x "
@@ -68,17 +94,17 @@ RULE = ("seed layouts (unit-test shapes and neighbours) x {cursor, strict}; gap 
         "Oracle: extracted Spec.co_tables on the input's last moov payload and on the returned metadata, exact integer shift by "
         "delta = |metadata| - media offset; refusal required when the specification says an entry would leave its field. Non-trivial = at least 40 bytes "
         "present; distinct = distinct case line.")
-LEVEL_TEXT = ("Coq theorems (no axioms, all payloads, all displacements in (-2^31, 2^31), no size or depth bound) about the box-tree model for ONE moov "
-              "payload: the model's moov arm accepts exactly the payloads in which the independent offset-based walker of Mp4/Spec.v finds the tables "
-              "(C01_tables_found, |p| < 2^32); when the in-place rewrite succeeds the walker finds in the rewritten payload the same tables (number, "
-              "order, width, position: C01_shape_preserved) whose entries are exactly e + d as integers (C01_offsets_shifted, using C20's theorem for "
-              "the regenerated checked_add_signed); it is refused with InvalidInput iff some entry would leave its field (C01_overflow_rejected, "
-              "C01_rejected_only_on_overflow). The model is tied to the code by the differential batch (extracted model vs the real sanitizer on "
-              "rewrite layouts), and the extracted specification judges the implementation's returned metadata directly. NOT yet a theorem here: the "
-              "whole-input statement (choice of d, padding => d = 0, |d| >= 2^31 refused, metadata = headers ++ payloads) - that assembly over "
-              "Mp4/San.v is a separate development; this module's verdict for the whole-input property rests on correspondence + oracle.")
+LEVEL_TEXT = ("Coq theorems, no axioms. TOP LEVEL (whole inputs, every configuration, strict and seek-style Skip, every fuel, no size bound): "
+              "C01_toplevel - if the model returns metadata then the specification reads it as boxes (metadata_shape) whose moov payload has the "
+              "chunk-offset tables of the input's last moov payload at the same places, every entry replaced by e + delta EXACTLY with "
+              "delta = |metadata| - media offset, every new entry inside its field; C01_pad_means_zero_shift - a padding box implies delta = 0 (a "
+              "consequence, not an assumption); C01_overflow_rejected_toplevel - a Refuse plan, or a Shift under which some entry would leave its "
+              "field, is never answered with Ok (derived from C05_accept_iff_rules). PAYLOAD LEVEL (one moov payload, d in [-2^31, 2^31)): "
+              "C01_tables_found, C01_shape_preserved, C01_offsets_shifted (using C20's theorem for the regenerated checked_add_signed), "
+              "C01_overflow_rejected, C01_rejected_only_on_overflow. The model is tied to the code by the differential batch (extracted model vs the "
+              "real sanitizer on rewrite layouts), and the extracted specification judges the implementation's returned metadata directly.")
 LEVEL_NOTE = ("Trusted: Coq kernel; the hand-written models Mp4/{Header,Box,San}.v (tied by the batch); Mp4/Spec.v + Mp4/ShiftSpec.v as the meaning of "
-              "`chunk-offset tables` and `shifted by delta`; extraction and the OCaml driver; the Rust harness and its readers. Payload-level theorems "
-              "only; see ASSUMPTIONS for what the top-level assembly still has to supply.")
+              "`chunk-offset tables`, `shifted by delta` and `the metadata read as boxes`; extraction and the OCaml driver; the Rust harness and its "
+              "readers. Top-level and payload-level statements are both proved; see ASSUMPTIONS for the stated ranges.")
 TECHNIQUE = "Coq proof about a hand-written model + extracted-model/Rust differential check + extracted specification as oracle"
 DESIGN_REF = "DESIGN.md section 7 (C01)"
